@@ -526,6 +526,24 @@ pub struct DataCase {
     pub trailing: u8,
     pub shape: Shape,
     pub chooser: Chooser,
+    /// standard descriptors closed with `exec` before the transfer (bit 0: fd 1, bit 1: fd 0,
+    /// bit 2: fd 2), so that pipe ends are allocated on the standard descriptor numbers
+    #[serde(default)]
+    pub pre: u8,
+}
+
+fn pre_text(pre: u8) -> String {
+    let mut s = String::new();
+    if pre & 1 != 0 {
+        s.push_str("exec >&-\n");
+    }
+    if pre & 2 != 0 {
+        s.push_str("exec <&-\n");
+    }
+    if pre & 4 != 0 {
+        s.push_str("exec 2>&-\n");
+    }
+    s
 }
 
 fn cats(k: u8) -> String {
@@ -565,12 +583,13 @@ fn check_data(c: &DataCase) -> Outcome {
         }
     };
     let _ = text;
+    let script = format!("{}{script}", pre_text(c.pre));
     let mut s = vsys::Setup::script(&script);
     s.chooser = c.chooser.clone();
     s.preempt = true;
     s.max_steps = 400_000;
     let r = vsys::run(&s);
-    let ctx = |m: String| format!("{m} [n={n} trailing={tn} shape={:?} schedule={:?}] stderr={:?}", c.shape, c.chooser, r.stderr);
+    let ctx = |m: String| format!("{m} [n={n} trailing={tn} shape={:?} closed-before={:03b} schedule={:?}] stderr={:?}", c.shape, c.pre, c.chooser, r.stderr);
     if let Some(p) = &r.panic {
         return Outcome::fail(ctx(format!("panic: {p}")));
     }
@@ -617,6 +636,9 @@ fn check_data(c: &DataCase) -> Outcome {
         .class(match c.shape { Shape::Pipe(_) => "pipe", Shape::Subst(_) => "subst", Shape::Nested => "nested-subst", Shape::HereDoc => "heredoc", Shape::VarEcho(_) => "var-echo" })
         .class_if(tn > 0, "trailing-newlines")
         .class_if(nonfifo, "non-fifo-schedule")
+        .class_if(c.pre & 1 != 0, "stdout-closed-before")
+        .class_if(c.pre & 2 != 0, "stdin-closed-before")
+        .class_if(c.pre & 4 != 0, "stderr-closed-before")
 }
 
 pub static DATA: Driver<DataCase> = Driver::new("C14", "data", check_data);
@@ -630,11 +652,14 @@ fn shapes() -> Vec<Shape> {
 pub fn run14(ctx: &Ctx, st: &mut Stats) {
     // grid: sizes x trailing x shapes x (FIFO + seeded schedules)
     let shape_list = shapes();
-    let nsched: u64 = ctx.tier.pick(40, 400);
-    let total = SIZES.len() as u64 * 4 * shape_list.len() as u64 * nsched;
+    let nsched: u64 = ctx.tier.pick(16, 200);
+    const PRES: [u8; 6] = [0, 1, 2, 3, 4, 7];
+    let total = SIZES.len() as u64 * 4 * shape_list.len() as u64 * nsched * PRES.len() as u64;
     let shapes_r = &shape_list;
     let seed = ctx.seed;
     let decode = move |i: u64| -> Option<DataCase> {
+        let pre = PRES[(i % PRES.len() as u64) as usize];
+        let i = i / PRES.len() as u64;
         let sc = i % nsched;
         let r = i / nsched;
         let shape = shapes_r[(r % shapes_r.len() as u64) as usize];
@@ -642,15 +667,15 @@ pub fn run14(ctx: &Ctx, st: &mut Stats) {
         let trailing = (r % 4) as u8;
         let n = SIZES[(r / 4) as usize];
         let chooser = if sc == 0 { Chooser::Fifo } else { Chooser::Seeded(seed.wrapping_mul(1000).wrapping_add(i)) };
-        Some(DataCase { n, trailing, shape, chooser })
+        Some(DataCase { n, trailing, shape, chooser, pre })
     };
     DATA.run_exhaustive(ctx, st, total, &decode);
     st.exhaustive_drivers.retain(|d| d != "data"); // the schedule dimension is sampled, not enumerated
     // random sizes, scripted (shrinkable) schedules
     let n = ctx.tier.pick(60_000, 3_000_000);
     DATA.run_random(ctx, st, n, || {
-        (0u16..4200, 0u8..4, prop::sample::select(shapes()), prop::collection::vec(any::<u8>(), 0..200))
-            .prop_map(|(n, trailing, shape, v)| DataCase { n, trailing, shape, chooser: Chooser::Scripted(v) })
+        (0u16..4200, 0u8..4, prop::sample::select(shapes()), prop::collection::vec(any::<u8>(), 0..200), prop_oneof![3 => Just(0u8), 2 => 0u8..8])
+            .prop_map(|(n, trailing, shape, v, pre)| DataCase { n, trailing, shape, chooser: Chooser::Scripted(v), pre })
     });
     // exhaustive DFS over schedules for a few small transfers
     let mut dfs_runs = 0u64;
@@ -663,7 +688,7 @@ pub fn run14(ctx: &Ctx, st: &mut Stats) {
             |chooser| {
                 // run through check_data to share the oracle; the RunResult is recomputed there, so
                 // here only the schedule log is needed
-                let c = DataCase { n, trailing: 1, shape, chooser: chooser.clone() };
+                let c = DataCase { n, trailing: 1, shape, chooser: chooser.clone(), pre: 0 };
                 let (out, _) = DATA.eval(&c);
                 if let Verdict::Fail(m) = out.verdict {
                     fail.get_or_insert(Failure { driver: "data".into(), case: serde_json::to_value(&c).unwrap(), message: m });
